@@ -889,3 +889,42 @@ func tfdtTime(t *mp4.TfdtBox) uint64 { return t.BaseMediaDecodeTime() }
 //@   callsite CreateEmsgAhead requires videoOnly: outSeg.meta.rep.ContentType == "video"
 //@   loop 1 invariant true
 //@   loop 2 invariant true
+
+// ---------------------------------------------------------------------------
+// C14/C08 wiring of the request handler: the traffic pattern selected by the URL exists, and
+// its state is evaluated at the request second floor(nowMS/1000).
+//@ func (*Server).livesimHandlerFunc
+//@   wiring
+//@   keep     index
+//@   callsite StateAt requires second: arg_nowS == nowMS/1000
+
+// ---------------------------------------------------------------------------
+// C12 wiring: generated subtitle segments get the number, the millisecond decode time and
+// duration of the reference video segment, the UTC time of the segment start
+// (decode time + availabilityStartTime, in ms) and the configured cue duration.
+//@ func writeTimeSubsMediaSegment
+//@   wiring
+//@   requires cfg != nil
+//@   callsite createSubtitlesStppMediaSegment requires ref: arg_nr == refSegMeta.newNr && arg_baseMediaDecodeTime == baseMediaDecodeTime && arg_dur == dur && arg_timeSubsDurMS == cfg.TimeSubsDurMS && arg_region == cfg.TimeSubsRegion
+//@   callsite createSubtitlesStppMediaSegment requires utc: arg_utcTimeMS == arg_baseMediaDecodeTime + uint64(cfg.StartTimeS*1000)
+//@   callsite createSubtitlesWvttMediaSegment requires ref: arg_nr == refSegMeta.newNr && arg_baseMediaDecodeTime == baseMediaDecodeTime && arg_dur == dur && arg_timeSubsDurMS == cfg.TimeSubsDurMS && arg_region == cfg.TimeSubsRegion
+//@   callsite createSubtitlesWvttMediaSegment requires utc: arg_utcTimeMS == arg_baseMediaDecodeTime + uint64(cfg.StartTimeS*1000)
+//@   callsite rep2SubsTime requires msOfRef: arg_timescale == int(refSegMeta.timescale) && (arg_repTime == refSegMeta.newTime || arg_repTime == uint64(refSegMeta.newDur))
+//@   loop 1 invariant true
+
+// rep2SubsTime: media time in the reference timescale converted to (rounded) milliseconds.
+//@ func rep2SubsTime
+//@   realdiv
+//@   nowrap assumed
+//@   requires timescale > 0
+//@   ensures  float64(result) == math.Round(float64(repTime*1000) / float64(timescale))
+
+// Both segment builders pass their arguments unchanged to the cue computation.
+//@ func createSubtitlesStppMediaSegment
+//@   wiring
+//@   callsite calcCueItvls requires args: arg_segStart == int(baseMediaDecodeTime) && arg_segDur == int(dur) && arg_utcStart == int(utcTimeMS) && arg_cueDur == timeSubsDurMS
+//@   loop 1 invariant true
+//@ func createSubtitlesWvttMediaSegment
+//@   wiring
+//@   callsite calcCueItvls requires args: arg_segStart == int(baseMediaDecodeTime) && arg_segDur == int(dur) && arg_utcStart == int(utcTimeMS) && arg_cueDur == timeSubsDurMS
+//@   loop 1 invariant true
